@@ -37,6 +37,7 @@ package common
 //@   loop 0: invariant forall i int :: offset <= i && i < len(points) ==> points[i] == old(points[i])
 //@   loop 0: invariant forall i int :: evenIdx(i, len(points)) && inR(old(points[i]), old(points[i+1]), width, height) ==> points[i] == old(points[i]) && points[i+1] == old(points[i+1])
 //@   loop 0: invariant offset >= 2 && offset <= len(points) && !nudged ==> points[offset-2] == old(points[offset-2]) && points[offset-1] == old(points[offset-1])
+//@   loop 0: invariant forall i int :: evenIdx(i, len(points)) && i + 3 < len(points) && (points[i+2] != old(points[i+2]) || points[i+3] != old(points[i+3])) ==> inR(points[i], points[i+1], width, height)
 //@   loop 0: decreases len(points) - offset
 //@   loop 1: invariant width == image.width && height == image.height && -2 <= offset && offset <= len(points) - 2 && (len(points) - offset) % 2 == 0 && (offset == len(points) - 2 ==> nudged)
 //@   loop 1: invariant forall i int :: 0 <= i && i < len(points) ==> points[i] == old(points[i]) || inImg(points[i], i, width, height)
